@@ -12,7 +12,9 @@
 //                                    arity, wired by the overload as const(zero))
 //   c [set <k> <v> | del <k> | tick | z <v>]*     one engine cycle (MIN_ST + i); answered when the run happens:
 //        "idle"                                     the root graph was not evaluated in that cycle
-//        "rec=<v|-> out=<v|none> mod=<0|1> n=<leaves|-> comb=<combiners|-> ngc=<nested_graph_count|->"
+//        "rec=<v|-> out=<v|none> mod=<0|1> n=<leaves|-> comb=<combiners|-> ngc=<nested_graph_count|-> ev=<evals>"
+//        ev: for comb=node the sorted multiset "[l:r,l:r,...]" of the operand pairs of every evaluation of the node
+//        combiner in that engine cycle (the combiner logs them; nothing in /repo is changed), "-" otherwise
 //   run                             -> "end out=<v|none> n=.. comb=.. ngc=.."   (state after the last cycle)
 // A history is run when `run`, the next `case` or EOF is read.  Errors -> "err:<class>".
 #include "hgv_common.h"
@@ -51,12 +53,22 @@ namespace
         }
     };
 
+    // Every evaluation of the node combiner is logged as (lhs, rhs): the per-cycle multiset of combiner
+    // evaluations is observable without touching /repo (drained by the lifecycle observer after each
+    // root-graph evaluation).
+    std::vector<std::pair<std::int64_t, std::int64_t>> &eval_log()
+    {
+        static std::vector<std::pair<std::int64_t, std::int64_t>> log;
+        return log;
+    }
+
     // +100 per application: the number of combiner applications is observable in the result.
     struct HgvOffsetSum
     {
         static constexpr auto name = "hgv_offset_sum";
         static void eval(In<"lhs", TS<Int>> lhs, In<"rhs", TS<Int>> rhs, Out<TS<Int>> out)
         {
+            eval_log().emplace_back(static_cast<std::int64_t>(lhs.value()), static_cast<std::int64_t>(rhs.value()));
             out.set(lhs.value() + rhs.value() + Int{100});
         }
     };
@@ -113,6 +125,7 @@ namespace
         std::int64_t value{0};
         bool        tree{false};
         std::size_t n{0}, comb{0}, ngc{0};
+        std::vector<std::pair<std::int64_t, std::int64_t>> evals;  // node-combiner evaluations of this cycle
     };
 
     CycleObs observe(const GraphView &graph, DateTime at)
@@ -151,6 +164,9 @@ namespace
             const auto i = testing::cycle_offset(graph.evaluation_time());
             if (i >= cycles.size()) { cycles.resize(i + 1); }
             cycles[i] = observe(graph, graph.evaluation_time());
+            cycles[i].evals = std::move(eval_log());
+            eval_log().clear();
+            std::sort(cycles[i].evals.begin(), cycles[i].evals.end());
         }
     };
 
@@ -167,6 +183,21 @@ namespace
         std::ostringstream s;
         if (o.tree) { s << " n=" << o.n << " comb=" << o.comb << " ngc=" << o.ngc; }
         else { s << " n=- comb=- ngc=-"; }
+        return s.str();
+    }
+
+    // " ev=[l:r,l:r,...]" (sorted) for the logging node combiner, " ev=-" for the others
+    std::string fmt_evals(const Cfg &cfg, const CycleObs &o)
+    {
+        if (cfg.comb != "node") { return " ev=-"; }
+        std::ostringstream s;
+        s << " ev=[";
+        for (std::size_t i = 0; i < o.evals.size(); ++i)
+        {
+            if (i != 0) { s << ","; }
+            s << o.evals[i].first << ":" << o.evals[i].second;
+        }
+        s << "]";
         return s.str();
     }
 
@@ -229,6 +260,7 @@ namespace
         testing::set_replay_deltas(gb.global_state(), "hgv::in", in_deltas);
         if (cfg.zero && cfg.zero_ts) { testing::set_replay_deltas(gb.global_state(), "hgv::zero", z_deltas); }
 
+        eval_log().clear();
         Obs obs;
         GraphExecutorBuilder eb;
         eb.graph_builder(std::move(gb))
@@ -257,7 +289,7 @@ namespace
             last = o;
             s << "rec=";
             if (rec) { s << recorded[i]->view().checked_as<Int>(); } else { s << "-"; }
-            s << fmt_tail(o) << " mod=" << (o.modified ? 1 : 0) << fmt_tree(o);
+            s << fmt_tail(o) << " mod=" << (o.modified ? 1 : 0) << fmt_tree(o) << fmt_evals(cfg, o);
             lines.push_back(s.str());
         }
         for (std::size_t i = cycles.size(); i < std::max(recorded.size(), obs.cycles.size()); ++i)
